@@ -34,6 +34,9 @@ class C08(Prop):
         "prediction, zero average at the exact weighted mean / expectile, the sign pattern and the value F(z) - level for "
         "quantiles, and the two aliases. Exact comparison with the model (inputs dyadic). Non-trivial = at least one tie z == y "
         "and one pair on each side."
+        "Later additions: narrow / unsigned / boolean / single-precision / byte-swapped dtypes for observations and predictions, predictions one ulp beside "
+        "an observation, extreme levels (2^-45, 1e-12, 1 - 1e-9; purely relative tolerance, the model gets the exact binary level), 'reuse' = a container "
+        "evaluated, refilled in place and evaluated again, 'inf' = infinite observations / predictions for quantile and median. "
     )
     assumptions = ["np.greater_equal on floats = exact >= on the same rationals"]
 
